@@ -75,12 +75,22 @@ def sample_data(rng, w, m, v, N, tail=None):
     return x
 
 
-def maybe_int(rng, x, p=0.12):
-    """with probability p (and only if the data are spread over several units) hand the samples over as an integer-typed
-    array of the rounded values: a legal input form; the model sees the same values as floats"""
+def maybe_int(rng, x, p=0.12, floats=True):
+    """with probability p (and only if the data are spread over several units) hand the samples over in another legal array
+    dtype — integers of several widths (rounded values) or narrower floats; the
+    returned array is what both the implementation and (as float64 values) the model see"""
     x = np.asarray(x)
     if rng.random() < p and x.size and float(np.min(np.std(x, axis=0))) > 2.0:
-        return np.rint(x).astype(np.int64)
+        # narrower floats only where the code promotes to float64 before it reduces (k-means sums float32 data in float32:
+        # a 1e-7 relative difference that is NumPy's semantics, not a defect)
+        kind = ["int64", "int32", "int16", "uint8", "float32", "float16"][int(rng.integers(0, 6 if floats else 4))]
+        if kind.startswith("float"):
+            return x.astype(kind)
+        xi = np.rint(x)  # values are never moved: a width that cannot hold them falls back to int64
+        info = np.iinfo(kind)
+        if xi.min() >= info.min and xi.max() <= info.max:
+            return xi.astype(kind)
+        return xi.astype(np.int64)
     return x
 
 
